@@ -1249,8 +1249,8 @@ func c14generate(r *rand.Rand, tier string, emit func(string)) {
 
 func init() {
 	register(&Prop{
-		ID: "C14",
-		Rule: "histories of one-statement evaluations on one interpreter: (1) for every kind x {natural, boxing forced}: declare, &v, every applicable compound assignment directly and through the pointer, redeclaration as each of the 17 kinds with the old pointer read back; (2) random histories over small name pools (redeclarations, aliases, malformed statements); (3) long histories (1150 quick / 3000 thorough declarations) with addresses taken early / when env.Ints is nearly full / never. Non-trivial: valid statements; distinct by (op, kind, write shape, storage class, pointer-to-redeclared, last write seen by a read).",
+		ID:      "C14",
+		Rule:    "histories of one-statement evaluations on one interpreter: (1) for every kind x {natural, boxing forced}: declare, &v, every applicable compound assignment directly and through the pointer, redeclaration as each of the 17 kinds with the old pointer read back; (2) random histories over small name pools (redeclarations, aliases, malformed statements); (3) long histories (1150 quick / 3000 thorough declarations) with addresses taken early / when env.Ints is nearly full / never. Non-trivial: valid statements; distinct by (op, kind, write shape, storage class, pointer-to-redeclared, last write seen by a read).",
 		Gen:     c14generate,
 		Exec:    c14exec,
 		Prepare: c14prepare,
